@@ -290,6 +290,41 @@ CHECKS["C40"] = (
     "_integrate_gradient_2d exactness and the normalisation of the moment are numerical and not decided.",
 )
 
+CHECKS["C04"] = (
+    "abstract interpretation in a modulus/interval/field domain (=1, <=1, [0,1], real/complex) over the propagator, "
+    "aperture, tilt and transmission kernels; oddness of every phase in the thickness; dataflow of the kernel into "
+    "the convolution",
+    "Decides that every Fourier-space propagation kernel has modulus <= 1 on every path (=1 times an aperture in "
+    "[0,1]), that the unfiltered transmission function of a real potential has modulus 1, and that kernel(-dz) is the "
+    "conjugate of kernel(dz). With Parseval this is the never-increases and reversibility clause for propagation. "
+    "The band-limited transmission step is not bounded by 1 and is recorded as a known finding.",
+    "Trusts unitarity of the FFT (Parseval) and float rounding.",
+)
+CHECKS["C05"] = (
+    "term normal form of the plane-wave fill value; post-dominance of normalize over amplitude-changing transforms in "
+    "Probe._calculate_array; complex-safe norm form and FFT typestate of _WavesNormalization",
+    "Decides that built plane waves carry 1/N (normalised) or 1 (not), that every probe passes a reciprocal-space "
+    "normalisation after the last amplitude-changing transform on every path, and that the normalisation divides by "
+    "sqrt(sum |a|^2) over the two base axes in reciprocal space.",
+    "Numerical unit norm and zero-intensity waves are not decided.",
+)
+CHECKS["C37"] = (
+    "exact symmetry check of the nine literal coefficient tables; axis/shift/scale agreement of the CPU and GPU "
+    "stencil kernels (same vector along both axes, second difference along axis a scaled by 1/sampling[a]^2)",
+    "Decides the stencil clauses: every table is symmetric (real eigenvalue on every discrete plane wave, necessary "
+    "for intensity conservation in vacuum), both kernels apply it along exactly the two base axes with the centre at "
+    "the right offset and each axis scaled by its own sampling.",
+    "The eigenvalue identity, vacuum intensity and lazy/eager equality are numerical; accuracy moment conditions are "
+    "computed and reported as information only.",
+)
+CHECKS["C39"] = (
+    "term normal form of the tilt phase against the shift-kernel phase with x = thickness*tan(tilt/1000) per axis; "
+    "axis pairing; same-function rule for base tilt and tilt axes; tilt-axis metadata mapping",
+    "Decides that the tilt phase is exactly the lateral-shift phase for dz*tan(t) along the matching axis, has unit "
+    "modulus, and that per-axis and 2D tilt descriptions reach the same kernel with the same components.",
+    "Numerical equality and sub-pixel interpolation are not decided.",
+)
+
 NOT_APPLICABLE = {
     "C25": "consistency of each parametrization's real- and reciprocal-space forms is an analytic Fourier-"
            "transform identity between tabulated-coefficient kernels plus monotonicity over table data; no "
